@@ -146,6 +146,9 @@ type world struct {
 	hf    *config.HardforkConfig
 	ts    int64
 	label string
+	// flip: a session of scripted parameter votes (see flipTxs); account k starts with 3*10^(5+k) aergo so that
+	// every account can out-stake all the ones before it
+	flip bool
 }
 
 func peerID(par byte, x []byte) []byte {
@@ -156,7 +159,8 @@ func peerID(par byte, x []byte) []byte {
 func fill(b byte) []byte { return bytes.Repeat([]byte{b}, 32) }
 
 func newWorld(run *vh.Run, rng *vh.Rng, hf *config.HardforkConfig, label string) *world {
-	w := &world{run: run, rng: rng, root: filepath.Join(run.Out, "nodes", label), hf: hf, label: label, ts: 1_600_000_000_000_000_000}
+	w := &world{run: run, rng: rng, root: filepath.Join(run.Out, "nodes", label), hf: hf, label: label, ts: 1_600_000_000_000_000_000,
+		flip: strings.Contains(label, "flip")}
 	seed := vh.NewRng(77)
 	for i := 0; i < 10; i++ {
 		k, _ := btcec.PrivKeyFromBytes(seed.Bytes(32))
@@ -181,8 +185,11 @@ func (w *world) genesis() *types.Genesis {
 		Balance:   map[string]string{},
 		BPs:       append([]string{}, w.bps...),
 	}
-	for _, a := range w.accts {
+	for k, a := range w.accts {
 		g.Balance[types.EncodeAddress(a.addr)] = "1000000" + coin
+		if w.flip {
+			g.Balance[types.EncodeAddress(a.addr)] = "3" + strings.Repeat("0", 5+k) + coin
+		}
 	}
 	g.Balance[types.AergoVault] = "5000" + coin
 	return g
@@ -751,6 +758,8 @@ type session struct {
 	stopPos   int
 	reps      int
 	blocks    []*types.Block // the blocks of the session, for the validator in another process
+	nblock    int            // blocks produced so far
+	flipK     int            // flip sessions: number of the next flip (account flipK out-stakes 0..flipK-1)
 }
 
 var daoValues = map[string][]string{
@@ -760,6 +769,17 @@ var daoValues = map[string][]string{
 	"NAMEPRICE":  {"1000000000000000000", "2000000000000000000"},
 }
 var daoIDs = []string{"BPCOUNT", "STAKINGMIN", "GASPRICE", "NAMEPRICE"}
+
+// paramsNow renders the system parameters in force on the installed node.
+func paramsNow() string {
+	var b strings.Builder
+	for _, id := range daoIDs {
+		fmt.Fprintf(&b, "%s=%s ", id, system.GetParam(id).String())
+	}
+	return b.String()
+}
+
+const defaultParams = "BPCOUNT=3 STAKINGMIN=10000000000000000000000 GASPRICE=50000000000 NAMEPRICE=1000000000000000000 "
 
 func (s *session) stateOf(addr []byte) *types.State {
 	st, err := s.P.cs.SDB().GetStateDB().GetAccountState(types.ToAccountID(addr))
@@ -888,11 +908,25 @@ func (s *session) candidates(bi *types.BlockHeaderInfo) ([]cand, []string) {
 		return rng.Intn(len(w.accts))
 	}
 	var out []cand
+	// flip sessions: the governance txs are scripted (flipTxs), created first (lowest nonces of their senders); the
+	// random candidates are the fee-paying filler and do not use the scripted senders
+	var scripted []cand
+	busy := map[int]bool{}
+	if w.flip {
+		scripted, busy = s.flipTxs(cid, gp, nonce)
+	}
 	for tries := 0; len(out) < n && tries < 200; tries++ {
 		i := rng.Intn(len(w.accts))
+		if busy[i] {
+			continue
+		}
 		body := &types.TxBody{ChainIdHash: cid, GasPrice: gp}
 		kind := ""
-		switch k := rng.Intn(100); {
+		k := rng.Intn(100)
+		if w.flip && k >= 48 && k < 91 { // no random stake / voteBP / voteDAO / unstake here
+			k = rng.Intn(48)
+		}
+		switch {
 		case k < 14:
 			kind = "transfer"
 			body.Type, body.Recipient, body.Amount = types.TxType_TRANSFER, w.accts[rng.Intn(len(w.accts))].addr, amt(int64(rng.Intn(10)), 18)
@@ -1017,6 +1051,17 @@ func (s *session) candidates(bi *types.BlockHeaderInfo) ([]cand, []string) {
 		}
 		out = append(out, cand{w.sign(a, body), kind})
 	}
+	if len(scripted) > 0 { // merge, keeping the order of each list
+		var merged []cand
+		for len(scripted) > 0 || len(out) > 0 {
+			if len(out) == 0 || (len(scripted) > 0 && rng.Chance(1, 2)) {
+				merged, scripted = append(merged, scripted[0]), scripted[1:]
+			} else {
+				merged, out = append(merged, out[0]), out[1:]
+			}
+		}
+		out = merged
+	}
 	stops := make([]string, len(out))
 	if len(out) > 0 && rng.Chance(1, 3) {
 		// the position sweeps over the candidates from block to block, so that every position (first, last, on a
@@ -1025,6 +1070,70 @@ func (s *session) candidates(bi *types.BlockHeaderInfo) ([]cand, []string) {
 		stops[s.stopPos%len(out)] = []string{"dl", "dl", "dlpre", "dlpre", "tmo", "vmtmo", "cancel", "cancelpre"}[rng.Intn(8)]
 	}
 	return out, stops
+}
+
+// flipTxs scripts the parameter votes of a flip session. Account 0 stakes in the first block. Then every other
+// block is a *flip*: the account that holds more than 10/11 of all stake (account k-1) votes a new value X of one
+// parameter - X wins and is scheduled for the next block - and, later in the SAME block, account k stakes ten
+// times the total and votes the value currently in force, which wins again: the block's state says "unchanged", and
+// so must the memory of every node that executed it. In the blocks between, the dominant account votes another
+// parameter to a new value (a plain change: in force from the next block on), so that later flips return to values
+// that are not the defaults. Each account votes once per parameter: no waiting period is involved.
+func (s *session) flipTxs(cid []byte, gp []byte, nonce func(int) uint64) ([]cand, map[int]bool) {
+	w := s.w
+	busy := map[int]bool{}
+	var out []cand
+	gov := func(i int, kind string, amount *big.Int, payload string) {
+		body := &types.TxBody{ChainIdHash: cid, GasPrice: gp, Type: types.TxType_GOVERNANCE, Recipient: []byte(types.AergoSystem),
+			Payload: []byte(payload), Nonce: nonce(i)}
+		if amount != nil {
+			body.Amount = amount.Bytes()
+		}
+		busy[i] = true
+		out = append(out, cand{w.sign(w.accts[i], body), kind})
+	}
+	stakeOf := func(k int) *big.Int { // 2*10^(5+k) aergo: more than ten times everything staked before
+		v, _ := new(big.Int).SetString("2"+strings.Repeat("0", 5+k)+coin, 10)
+		return v
+	}
+	other := func(id string, not ...string) string {
+		for _, v := range daoValues[id] {
+			ok := true
+			for _, x := range not {
+				if v == x {
+					ok = false
+				}
+			}
+			if ok {
+				return v
+			}
+		}
+		return daoValues[id][0]
+	}
+	vote := func(i int, id, v string) {
+		gov(i, "flip-voteDAO", nil, `{"Name":"v1voteDAO","Args":["`+id+`","`+v+`"]}`)
+	}
+	b := s.nblock
+	switch {
+	case b == 0:
+		gov(0, "flip-stake", stakeOf(0), `{"Name":"v1stake"}`)
+		s.flipK = 1
+	case b%2 == 1 && s.flipK < len(w.accts):
+		k := s.flipK
+		id := daoIDs[k%len(daoIDs)]
+		cur := system.GetParam(id).String()
+		vote(k-1, id, other(id, cur)) // X wins: scheduled for the next block
+		gov(k, "flip-stake", stakeOf(k), `{"Name":"v1stake"}`)
+		vote(k, id, cur) // the value in force wins again
+		s.run.Count("flip block: a parameter vote makes a new value win and a later tx of the block returns to the value in force")
+		s.flipK++
+	case b%2 == 0 && s.flipK < len(w.accts):
+		k := s.flipK - 1 // the dominant account; it has voted daoIDs[k%4] only, and will vote daoIDs[(k+1)%4] in the next flip
+		id := daoIDs[(k+2)%len(daoIDs)]
+		vote(k, id, other(id, system.GetParam(id).String()))
+		s.run.Count("flip session: plain parameter change (in force from the next block)")
+	}
+	return out, busy
 }
 
 type execResult struct {
@@ -1300,6 +1409,27 @@ func (s *session) step() bool {
 		s.fail(fmt.Sprintf("connecting a produced block fails: producer=%v second node=%v %s", errP, errV, out), nil)
 		return false
 	}
+	// --- every node that executed the block holds, in memory, the parameters the block's state holds: a node that
+	// loads them from the state (restart, reorganisation, a validator booted later) must not get other values
+	var memP, memV, fromState string
+	s.P.on(func() { memP = paramsNow() })
+	s.V.on(func() { memV = paramsNow() })
+	if out, panicked := vh.Guard(func() string {
+		s.V.bootFresh(p.blk.GetHeader().GetBlocksRootHash(), len(w.bps))
+		fromState = paramsNow()
+		return ""
+	}); panicked {
+		fromState = "panic: " + out
+	}
+	run.Eval("", false)
+	if memP != fromState || memV != fromState {
+		s.fail("after connecting a block the in-memory system parameters of a node that executed it differ from the parameters loaded from the block's state",
+			map[string]interface{}{"producer_memory": memP, "second_node_memory": memV, "loaded_from_state": fromState, "candidates": kinds, "outcomes": p.outcomes})
+		return false
+	}
+	if fromState != defaultParams {
+		run.Count("block end with non-default parameters in force: memory = state checked")
+	}
 	rp, rv := hx(s.P.cs.SDB().GetRoot()), hx(s.V.cs.SDB().GetRoot())
 	if rp != ref.root || rv != ref.root {
 		s.fail("after connecting the block the nodes' state roots differ from the header", map[string]interface{}{"header": ref.root, "producer": rp, "second": rv})
@@ -1335,6 +1465,7 @@ func (s *session) step() bool {
 	}
 	s.parent = p.blk
 	s.blocks = append(s.blocks, p.blk)
+	s.nblock++
 	return true
 }
 
@@ -1559,6 +1690,11 @@ func main() {
 			runSession(run, fmt.Sprintf("%s-chain-%d", f.name, rd), &hf, false, nblocks)
 			hf2 := f.hf
 			runSession(run, fmt.Sprintf("%s-warp-%d", f.name, rd), &hf2, true, nblocks)
+			if f.name == "all" || f.name == "stag" || f.name == "v3" {
+				// scripted parameter votes that flip the winner back and forth within one block and across blocks
+				hf3 := f.hf
+				runSession(run, fmt.Sprintf("%s-flip-%d", f.name, rd), &hf3, f.name == "stag", nblocks)
+			}
 			if rd == 0 && fi == 0 {
 				partVprApply(run)
 				partVoteSort(run)
